@@ -58,7 +58,9 @@ TDiag == /\ Report /\ l <= Len(T) /\ Ev.e # "Reset"
          /\ PrintT(<<"REJECT", l, Ev.e, IF "r" \in DOMAIN Ev THEN Ok(Ev.r) ELSE "-", IF Ev.e = "Invoke" THEN Ev.out ELSE "-">>)
          /\ FALSE /\ UNCHANGED tvars
 
-TNext == \/ TReset \/ TNewFunc \/ TAddFuncNode \/ TAddFunc \/ TEndFunc \/ TInvoke \/ TEmit \/ TSetCursor
+TReinit == IsEv("Reinit") /\ fin \in {0, 1} /\ seq # <<>> /\ Reinit(Ok(Ev.r), Ev.n0, Ev.annots, Ev.pools, Ev.p) /\ Ev.k0 = "section"
+
+TNext == \/ TReset \/ TReinit \/ TNewFunc \/ TAddFuncNode \/ TAddFunc \/ TEndFunc \/ TInvoke \/ TEmit \/ TSetCursor
          \/ TNewConst \/ TNewReg \/ TNewStack \/ TSetStackSize \/ TRename \/ TNewAnnot \/ TFinalize \/ TDiag
 TSpec == TInit /\ [][TNext]_tvars
 
